@@ -235,6 +235,9 @@ def play(logic, setup, atoms, ops, tb, rd, hints_for, stats, exact, rng_local=ra
                     n = min(n, len(stack))
                     if n <= 0:
                         continue
+                if cdcl_like and len(stack) - n > oklen[0]:
+                    # THandler's discipline: asserted literals are checked before any of them is retracted
+                    n = len(stack) - oklen[0]
                 cv.ask("pop %d" % n)
                 del stack[len(stack) - n:]
                 oklen[0] = min(oklen[0], len(stack))
